@@ -531,4 +531,93 @@ theorem archiveInto_spec (arch pop : List (Ind O)) :
         · rw [h1]; simp
         · exact h4 x hx
 
+/-! ### covered traces (run level) -/
+
+/-- A trace in which every value the objective function returns is shown to a best-update right away,
+and no scope shadows the best individual. -/
+inductive Covered : List (Ev O) → Prop where
+  | nil : Covered []
+  | other (t) : Covered t → Covered (.other :: t)
+  | enter (he t) : Covered t → Covered (.enter he false :: t)
+  | exit (t) : Covered t → Covered (.exit :: t)
+  | update (pop t) : Covered t → Covered (.update pop :: t)
+  | eval (n vals pop t) : (∀ v ∈ vals, v ∈ pop) → Covered t → Covered (.eval n vals :: .update pop :: t)
+  | selfEval (vals pop t) : (∀ v ∈ vals, v ∈ pop) → Covered t → Covered (.selfEval vals :: .update pop :: t)
+
+theorem feedBest_le (b : Option O) (pop : List O) :
+    (∀ v ∈ pop, ∃ x, feedBest b pop = some x ∧ x ≤ v) ∧ (∀ bo, b = some bo → ∃ x, feedBest b pop = some x ∧ x ≤ bo) := by
+  unfold feedBest
+  cases hm : minByKey id pop with
+  | none =>
+    rw [minByKey_none] at hm; subst hm
+    exact ⟨by simp, fun bo hbo => ⟨bo, hbo, le_refl _⟩⟩
+  | some c =>
+    obtain ⟨_, hc⟩ := minByKey_le id pop c hm
+    cases b with
+    | none => exact ⟨fun v hv => ⟨c, rfl, hc v hv⟩, by simp⟩
+    | some bo =>
+      by_cases hlt : c < bo
+      · simp only [hlt, if_true]
+        exact ⟨fun v hv => ⟨c, rfl, hc v hv⟩, fun b2 hb2 => ⟨c, rfl, by injection hb2 with hb2; subst hb2; exact le_of_lt hlt⟩⟩
+      · simp only [hlt, if_false]
+        exact ⟨fun v hv => ⟨bo, rfl, le_trans (not_lt.mp hlt) (hc v hv)⟩,
+               fun b2 hb2 => ⟨bo, rfl, by injection hb2 with hb2; subst hb2; exact le_refl _⟩⟩
+
+/-- Invariant of covered runs: one visible best, which is ≤ every value returned so far. -/
+def BestInv (s : Scoped O) : Prop :=
+  ∃ b, s.bests = [b] ∧ (∀ fr ∈ s.frames, fr.2 = false) ∧ ∀ v ∈ s.returned, ∃ x, b = some x ∧ x ≤ v
+
+theorem covered_inv (evs : List (Ev O)) (hc : Covered evs) (s : Scoped O) (hs : BestInv s) :
+    BestInv (scopedRun s evs) := by
+  induction hc generalizing s with
+  | nil => exact hs
+  | other t _ ih => exact ih s hs
+  | enter he t _ ih =>
+    apply ih
+    obtain ⟨b, h1, h2, h3⟩ := hs
+    exact ⟨b, by simp [scopedStep, h1], by
+      intro fr hfr; simp [scopedStep] at hfr; rcases hfr with rfl | hfr; rfl; exact h2 fr hfr, by simpa [scopedStep] using h3⟩
+  | exit t _ ih =>
+    apply ih
+    obtain ⟨b, h1, h2, h3⟩ := hs
+    cases hfr : s.frames with
+    | nil => exact ⟨b, by simp [scopedStep, hfr, h1], by simp [scopedStep, hfr], by simpa [scopedStep, hfr] using h3⟩
+    | cons fr frs =>
+      obtain ⟨he, hb⟩ := fr
+      have : hb = false := h2 (he, hb) (by simp [hfr])
+      subst this
+      exact ⟨b, by simp [scopedStep, hfr, h1], by
+        intro fr h; simp [scopedStep, hfr] at h; exact h2 fr (by simp [hfr, h]), by simpa [scopedStep, hfr] using h3⟩
+  | update pop t _ ih =>
+    apply ih
+    obtain ⟨b, h1, h2, h3⟩ := hs
+    refine ⟨feedBest b pop, by simp [scopedStep, h1, setTop], by simpa [scopedStep] using h2, ?_⟩
+    intro v hv
+    simp only [scopedStep] at hv
+    obtain ⟨x, hx, hxv⟩ := h3 v hv
+    obtain ⟨y, hy, hyx⟩ := (feedBest_le b pop).2 x hx
+    exact ⟨y, hy, le_trans hyx hxv⟩
+  | eval n vals pop t hsub _ ih =>
+    apply ih
+    obtain ⟨b, h1, h2, h3⟩ := hs
+    refine ⟨feedBest b pop, by simp [scopedStep, h1, setTop], by simpa [scopedStep] using h2, ?_⟩
+    intro v hv
+    simp only [scopedStep, List.mem_append] at hv
+    rcases hv with hv | hv
+    · obtain ⟨x, hx, hxv⟩ := h3 v hv
+      obtain ⟨y, hy, hyx⟩ := (feedBest_le b pop).2 x hx
+      exact ⟨y, hy, le_trans hyx hxv⟩
+    · exact (feedBest_le b pop).1 v (hsub v hv)
+  | selfEval vals pop t hsub _ ih =>
+    apply ih
+    obtain ⟨b, h1, h2, h3⟩ := hs
+    refine ⟨feedBest b pop, by simp [scopedStep, h1, setTop], by simpa [scopedStep] using h2, ?_⟩
+    intro v hv
+    simp only [scopedStep, List.mem_append] at hv
+    rcases hv with hv | hv
+    · obtain ⟨x, hx, hxv⟩ := h3 v hv
+      obtain ⟨y, hy, hyx⟩ := (feedBest_le b pop).2 x hx
+      exact ⟨y, hy, le_trans hyx hxv⟩
+    · exact (feedBest_le b pop).1 v (hsub v hv)
+
 end MahfModel.PopMachine
